@@ -148,6 +148,11 @@ class Ctx:
             self._path_cache[key] = ps
         return ps
 
+    def is_new_call(self, e) -> bool:
+        """The call event targets a helper introduced later (it is inlined: its body's calls are what counts)."""
+        c = e.x.get("callee")
+        return bool(c is not None and c.how == "typed" and c.targets and all(self.is_new(t) for t in c.targets))
+
     def fn(self, key: str) -> FuncInfo:
         f = self.p.fn(key)
         self.rep.note_fn(f)
